@@ -15,7 +15,7 @@ CONFIG = {
              'rebuild after mutating a path no recorded operation observed, (c) a rebuild after a '
              'single observed-path mutation; reused outputs must keep inode and mtime; '
              'distinct_nontrivial = distinct (program shape, step kinds) histories with >=1 hit and >=1 justified miss'),
-    'gates': ['builds_committed', 'stat:hits_top', 'stat:must_run', 'probe_a', 'probe_b', 'probe_c'],
+    'gates': ['overlay_cases', 'builds_committed', 'stat:hits_top', 'stat:must_run', 'probe_a', 'probe_b', 'probe_c'],
 }
 
 KINDS = {'extra_invocation', 'reused_output_rewritten', 'invoked_twice'}
@@ -127,6 +127,8 @@ def _listed(mb, p):
 
 
 def run_shard(sh):
+    from .overlaycases import run_overlay_cases
+    run_overlay_cases(sh, select, stride=2 if sh.tier == 'quick' else 1)
     run_histories(sh, select=select, steps_range=(3, 6) if sh.tier == 'quick' else (5, 10),
                   fail_prob=0.08,
                   after_build=lambda w, program, sr, ctx: after_build(sh, w, program, sr, ctx))
